@@ -65,6 +65,7 @@ func scTeardown(alloc bool) func(e *kenv, x *sched.Exec) func() []viol {
 		w.base = e.dump()
 		w.a = &tdSub{name: "victim", mac: net.HardwareAddr{2, 0, 0, 0, 0, 0x0a}}
 		w.establish(w.a, "EST")
+		w.vic = append(w.vic, w.a)
 		s := w.a.s
 		x.Thread("admin", func() { w.td.TerminateSession(s, pppoe.TerminateCauseAdminReset, "admin"); x.Obs("admin done") })
 		x.Thread("padt", func() { w.td.HandleClientPADT(s, w.a.mac, s.ID); x.Obs("padt done") })
@@ -294,9 +295,7 @@ func scPPPoE(alloc bool) func(e *kenv, x *sched.Exec) func() []viol {
 		w.establish(w.b, "IPCP")
 		w.a = &pppClient{name: "victim", mac: net.HardwareAddr{2, 0, 0, 0, 0, 0x0a}}
 		w.establish(w.a, "IPCP")
-		w.aSess = w.session(w.a)
-		w.aSID = w.aSess.SessionID
-		w.aAddr = append(net.IP{}, w.aSess.ClientIP.To4()...)
+		w.noteVictim()
 		a := w.a
 		x.Thread("padt", func() { w.srv.VerifC04Discovery(a.mac, pdisc(pppoe.CodePADT, a.sid)); x.Obs("padt done") })
 		x.Thread("lcp-tr", func() {
